@@ -111,6 +111,7 @@ class Run(object):
         self.sim = simtor.SimTor(self.proto, self.tr)
         self.sim.hold = lambda line: line.startswith("SETCONF")
         self.sim.handlers["SETCONF"] = self.apply_setconf
+        self.sim.strict_events = True        # announcements reach the connection only while it is subscribed to them
         names, defaults = [], []
         for r, (name, typ, conc) in sorted(self.opt.items()):
             if typ == "PortLines":
@@ -228,6 +229,10 @@ class Run(object):
                     d = c.attach_protocol(self.proto)
                 else:
                     d = TorConfig.from_protocol(self.proto)
+                if self.pick.get("extral"):
+                    # the application subscribes to an event of its own right away, before Tor has answered anything
+                    # of the configuration's bootstrap
+                    self.proto.add_event_listener("STREAM", lambda text: None)
                 self.sim.pump()
                 if not d.called or isinstance(d.result, failure.Failure):
                     self.exc = True
